@@ -1,0 +1,13 @@
+//go:build verif
+
+package node
+
+// Hooks of the determinism harness (/verif, group Determ, property C07). Built only with -tags verif.
+
+// VerifValidBatchableWrite exposes the argument pre-check a batchable write must pass to join a batch.
+func VerifValidBatchableWrite(cmdName string, args [][]byte, ts int64) bool {
+	return isValidBatchableWrite(cmdName, args, ts)
+}
+
+// VerifMaxDBBatchCmdNum is the size limit of one batch of commands.
+const VerifMaxDBBatchCmdNum = maxDBBatchCmdNum
